@@ -3,7 +3,7 @@
    Print Assumptions.  Model: Store/C16Index.v; proofs: Store/C16IndexProofs.v. *)
 From Coq Require Import List NArith ZArith Bool Arith Permutation.
 Import ListNotations.
-From GMS Require Import Store.C16Index Store.C16IndexProofs Store.C16IndexOrder.
+From GMS Require Import Store.C16Index Store.C16IndexProofs Store.C16IndexOrder Store.C16Alias.
 
 (* The representation invariant [Inv]: index names are unique and, for every index, the raw storage kept under its
    name has no two entries for one row location, every entry points at an existing row whose key tuple it carries,
@@ -132,6 +132,22 @@ Proof.
   - revert E. vm_compute. discriminate.
 Qed.
 Print Assumptions C16_insert_helper_overwrite_duplicates_entry_refuted.
+
+(* Aliasing (Store/C16Alias.v): TableData.copy() shares the index storage rows (cells) that Swap and
+   deleteRowFromIndexes patch in place.  A snapshot taken before an ApplyEdits is still restored correctly when that
+   ApplyEdits only allocated new cells ... *)
+Theorem C16_snapshot_restoration_holds_when_no_cell_is_patched :
+  forall kc h d rs extra,
+    fst (a_apply kc (h, d) rs) = h ++ extra -> Forall (fun id => id < length h) (aview d) -> restores kc h d rs.
+Proof. exact restores_if_heap_only_extended. Qed.
+Print Assumptions C16_snapshot_restoration_holds_when_no_cell_is_patched.
+
+(* ... and is NOT when sortRows has to move existing rows: the witness is the self-referential foreign key finding
+   (rows 50,60,70; rows 10,11 applied mid-statement; the restored storage says rows 2,3,4) *)
+Theorem C16_snapshot_restoration_after_in_place_patch_refuted :
+  ~ restores 1 w_heap w_data [[10; 1]; [11; 2]]%Z.
+Proof. exact restoration_refuted. Qed.
+Print Assumptions C16_snapshot_restoration_after_in_place_patch_refuted.
 
 (* non-vacuity: a history with inserts, a primary-key-changing update (delete + add), a delete and an index built
    on existing data passes the guard, runs, and its lookup is non-trivial *)
